@@ -9,7 +9,10 @@
    so choice, implicit case and node can all three coincide).  Siblings always
    differ, and so do the data nodes lifted out of the cases of one choice, so
    every generated schema is legal YANG.  Types are string / int8 / empty, direct
-   or through a typedef.  mode "path": no constraints; mode "data": mandatory,
+   or through a typedef.  mode "path": no constraints; mode "keys": as "path", but
+   a list has one to three keys (types string / int8 / boolean, direct or through a
+   typedef), its key leaves stand in a drawn order at drawn places among the other
+   children, whatever the order of the key statement; mode "data": mandatory,
    default, min-/max-elements, one to three unique statements, default /
    mandatory choices (respecting RFC 6020: no default on a mandatory leaf, no
    mandatory node under a default case, unique leaves without defaults);
@@ -38,11 +41,33 @@ AnyMandatory(kids) ==
      \/ c.kind = "container" /\ ~c.presence /\ AnyMandatory(c.kids)
      \/ c.kind \in {"choice", "case"} /\ AnyMandatory(c.kids)
 
+Plain(mode) == mode \in {"path", "keys"}      \* no constraints
+
+\* two sequences interleaved at drawn places, each keeping its order
+RECURSIVE RandMerge(_, _)
+RandMerge(a, b) ==
+  IF a = << >> THEN b ELSE IF b = << >> THEN a
+  ELSE IF RandomElement(1..2) = 1 THEN <<a[1]>> \o RandMerge(Tail(a), b) ELSE <<b[1]>> \o RandMerge(a, Tail(b))
+
+\* mode "keys": the list nm at position pos with the other children `others`: K key leaves (the key statement names
+\* them in the order kq, jq, iq), declared in a drawn order and merged into the other children
+KeyTypes == {"string", "int8", "tstring", "tint8", "boolean"}
+RandKeyedList(nm, pos, others) ==
+  LET k4  == RandomElement(1..4)
+      K   == IF k4 = 4 THEN 2 ELSE k4
+      l1  == Leaf(pos \o "kq", RandomElement(KeyTypes))
+      l2  == Leaf(pos \o "jq", RandomElement(KeyTypes))
+      l3  == Leaf(pos \o "iq", RandomElement(KeyTypes))
+      kl  == SubSeq(<<l1, l2, l3>>, 1, K)
+      o   == Orders(K)[RandomElement(1..Len(Orders(K)))]
+      dcl == CASE K = 1 -> <<kl[1]>> [] K = 2 -> <<kl[o[1]], kl[o[2]]>> [] OTHER -> <<kl[o[1]], kl[o[2]], kl[o[3]]>>
+  IN ListK(nm, SubSeq(<<l1.name, l2.name, l3.name>>, 1, K), RandMerge(dcl, others))
+
 RandLeaf(nm, mode) ==
   LET t == RandomElement({"string", "tstring", "int8", "tint8", "empty", "tempty"})
       r == RandomElement(1..4)
       rare == RandomElement(1..4) IN
-  IF mode = "path" THEN Leaf(nm, t)
+  IF Plain(mode) THEN Leaf(nm, t)
   ELSE IF r = 1 /\ (mode # "sparse" \/ rare = 1) THEN LeafM(nm, t)
   ELSE IF r = 2 /\ ~IsEmptyType(t) THEN LeafD(nm, t, IF BaseType(t) = "int8" THEN "7" ELSE "dv")
   ELSE Leaf(nm, t)
@@ -50,7 +75,7 @@ RandLL(nm, mode) ==
   LET t == RandomElement({"string", "int8", "tint8"})
       mm == RandomElement({<<0, 0>>, <<0, 0>>, <<1, 0>>, <<0, 2>>, <<1, 2>>, <<2, 3>>})
       rare == RandomElement(1..4) IN
-  IF mode = "path" THEN LL(nm, t)
+  IF Plain(mode) THEN LL(nm, t)
   ELSE IF mode = "sparse" /\ rare # 1 THEN LLmm(nm, t, 0, mm[2])
   ELSE LLmm(nm, t, mm[1], mm[2])
 
@@ -110,13 +135,14 @@ RandNode(nm, pos, d, mode) ==
            mm   == RandomElement({<<0, 0>>, <<0, 0>>, <<1, 0>>, <<0, 2>>, <<1, 2>>})
            uq   == RandUniq(kids, ul)
            rare == RandomElement(1..4)
-       IN IF mode = "path" THEN List(nm, key, kids)
+       IN IF mode = "keys" THEN RandKeyedList(nm, pos, RandKids(nm, pos, d - 1, nk, mode, vk))
+          ELSE IF mode = "path" THEN List(nm, key, kids)
           ELSE ListX(nm, key, IF mode = "sparse" /\ rare # 1 THEN 0 ELSE mm[1], mm[2], uq, kids)
   ELSE LET nc == RandomElement(1..3)
            vk == RandomElement(1..4)
            cs == RandCases(nm, pos, d - 1, nc, mode, vk)
            r  == RandomElement(1..3) IN
-       IF mode = "path" THEN Choice(nm, cs)
+       IF Plain(mode) THEN Choice(nm, cs)
        ELSE IF r = 1 /\ ~AnyMandatory(CaseKidsR(cs[1])) THEN ChoiceD(nm, cs[1].name, cs)
        ELSE IF r = 2 \/ (r = 3 /\ mode = "sparse") THEN ChoiceM(nm, cs)
        ELSE Choice(nm, cs)
